@@ -1048,6 +1048,34 @@ def stage_channels(ctx):
         finish_batch(ctx, "C12c", exprs, metas)
 
 
+MODEL_PY = "holopy/inference/model.py"
+
+
+def _src_items():
+    from harness.lib import pyarr, pysrc
+    return [
+        dict(file=MODEL_PY, qualname="(header)", name="asum", fn=lambda repo: pyarr.HEADER),
+        dict(file=MODEL_PY, qualname="Model._lnlike (+ Model._residuals)", name="lnlike_src",
+             fn=lambda repo: pyarr.translate(
+                 repo, MODEL_PY, "Model._lnlike", "lnlike_src", [("forward_model", "R"), ("data", "R"), ("noise_sd", "R")],
+                 params=["pars", "data"], opaque={"noise_sd": 2, "forward_model": 0},
+                 opaque_calls={"dict_to_array", "self._forward"}, size_attrs={"data.size"},
+                 identity_calls={"ensure_scalar", "ensure_array"}, identity_attrs={"values"},
+                 inline={"self._residuals": ("Model._residuals", ["pars", "data", "noise"])})),
+        dict(file=MODEL_PY, qualname="LimitOverlaps.check", name="check_src",
+             fn=lambda repo: pysrc.translate(repo, MODEL_PY, "LimitOverlaps.check", "check_src", [("s", "obj")], "bool",
+                                             self_attrs={"fraction": "fraction"},
+                                             opaque_exprs={"s.largest_overlap()": "largest", "np.min(s.r)": "minr"})),
+    ]
+
+
+def stage_srctie(ctx):
+    from harness.lib import srctie
+    ok = srctie.run(ctx, "C12", "From Coq Require Import Lia Psatz.\nFrom HV Require Import C12.Model C12.Lemmas C12.Props.\n",
+                    _src_items())
+    ctx.count("srctie:%s" % ("ok" if ok else "broken"))
+
+
 def run(ctx):
     ctx.rule = ("models: ExactModel with a counting synthetic calc_func (Sphere / Spheres of 2-3, ties, complex and transformed "
                 "priors, LimitOverlaps with dyadic geometry on / 2^-20 beside the boundary, calc_func refusing) and AlphaModel "
@@ -1071,7 +1099,16 @@ def run(ctx):
                     "oracle: forward hologram values (counting synthetic calc_func; public calc_holo with real Mie for AlphaModel)",
                     "oracle: Spheres.largest_overlap() value (C20), scatterer construction from parameters (C11), numpy RNG pixel selection",
                     "call counter of AlphaModel observed by wrapping the name holopy.inference.model.calc_holo from outside"]
+    ctx.clauses_proved.append(
+        "source tie: Model._lnlike with Model._residuals inlined (numpy vector code read elementwise) and LimitOverlaps.check, "
+        "translated from the current source text on every run, are proved equal to the model's per-pixel-noise likelihood for "
+        "every pixel list and to limit_overlaps_check; the Gaussian log-density theorem and the overlap rule restated for the "
+        "translated source")
+    ctx.trusted.append("translators harness/lib/pyarr.py / pysrc.py (numpy elementwise arithmetic, np.mean, np.log and .sum() over "
+                       "equally long arrays read as list folds over R; the noise array (dict_to_array), the forward hologram "
+                       "(self._forward), s.largest_overlap() and np.min(s.r) are opaque inputs; float rounding ignored)")
     guarded(ctx, "prove", ctx.prove)
+    guarded(ctx, "source-tie", stage_srctie, ctx)
     boot.boot()
     guarded(ctx, "fixed", stage_fixed, ctx)
     guarded(ctx, "generated", stage_generated, ctx)
@@ -1089,6 +1126,10 @@ def replay(ctx, data):
     boot.boot()
     d = data["data"]
     case = d.get("case")
+    if d.get("kind") == "tie":
+        ctx.prove()
+        stage_srctie(ctx)
+        return
     if d.get("kind") == "channels":
         print("replay: re-running the per-channel noise stage")
         guarded(ctx, "channels", stage_channels, ctx)
